@@ -187,13 +187,42 @@ class World:
             self.broken_types = bt
         self.plain_module = space.new_name("mod")
         space.write(self.plain_module, {}, module_only=True)
+        # a plain module inside a package that does provide a component:
+        # the module itself is no package and provides none
+        self.inner_module = None
+        if self.components:
+            space.write(self.components[0][0],
+                        {"plainmod.py": "# a module, not a package\n"})
+            self.inner_module = self.components[0][0] + ".plainmod"
         self.no_component = space.new_name("nocomp")
         space.write(self.no_component, {})
         head = None
         if self.schema_level:
             head = "<import package='%s'/>" % self.schema_level[0]
+        # now and then the abstract types and the holder type (a section
+        # type with an abstract slot) live in a library schema that the
+        # application schema imports by reference; the implementers are
+        # declared outside the library
+        self.library = None
+        rendered = model
+        if self.inline and rng.random() < 0.4:
+            import urllib.request
+            lib = [t for t in model["types"]
+                   if t["kind"] == "abstract" or t["name"] == "holder"]
+            out = ["<schema>"]
+            family.render_types(lib, out)
+            out.append("</schema>")
+            World._libs = getattr(World, "_libs", 0) + 1
+            self.library = os.path.join(space.root,
+                                        "zcvlib %d.xml" % World._libs)
+            with open(self.library, "w") as f:
+                f.write("\n".join(out) + "\n")
+            rendered = dict(model, types=[t for t in model["types"]
+                                          if t not in lib])
+            head = "<import src='file://%s'/>" % urllib.request.pathname2url(
+                self.library) + (head or "")
         self.xml = family.render_xml(
-            model, abstract_import=(self.base, "abstract.xml")
+            rendered, abstract_import=(self.base, "abstract.xml")
             if self.base else None, head_xml=head)
         import ZConfig
         import ZConfig.loader
@@ -310,6 +339,8 @@ def gen_text(rng, w):
             bad = rng.choice([w.plain_module, w.no_component,
                               "zcvpkg_no_such_package", "os",
                               "zcvpkg..x"] +
+                             ([w.inner_module] * 2 if w.inner_module
+                              else []) +
                              ([w.base] if w.base else []) +
                              ([w.broken] * 3 if w.broken else []))
             if rng.random() < 0.2:
@@ -760,6 +791,8 @@ def run_shard(ctx):
             run_world(ctx, w, hook, rng)
             if w.getonly:
                 ctx.res.count("worlds_with_get_only_registry")
+            if w.library:
+                ctx.res.count("worlds_with_library_schema")
             if w.components and rng.random() < 0.2 and not w.getonly:
                 hook.phase = "churn"
                 churn(ctx, w, rng)
